@@ -127,6 +127,17 @@ def build(seed, shuffle_seed=None):
         if r.random() < 0.5:
             # ... and an argument of the bare alias elsewhere (fills or does not fill any cache first, depending on the order)
             eps.insert(r.randrange(len(eps) + 1), endpoint("plain", "POST", "/c08/plain", [arg("body", ref("AliPlain", P[0]), "body")]))
+    if r.random() < 0.4:
+        # two types with one simple name in different packages on one query path: the inner one is not safe
+        inner_safe = r.random() < 0.3
+        types.append(obj("Session", P[1], [field("token", prim("STRING"), "SAFE" if inner_safe else None)]))
+        fs = [field("id", prim("STRING"), "SAFE"), field("detail", r.choice([ref("Session", P[1]), opt(ref("Session", P[1])), lst(ref("Session", P[1]))]))]
+        if r.random() < 0.5:
+            fs.reverse()
+        types.append(obj("Session", P[0], fs))
+        eps.insert(r.randrange(len(eps) + 1), endpoint("session", "POST", "/c08/session", [arg("body", ref("Session", P[0]), "body")]))
+        if r.random() < 0.4:
+            eps.insert(r.randrange(len(eps) + 1), endpoint("innerSession", "POST", "/c08/inner-session", [arg("body", ref("Session", P[1]), "body")]))
     services = [service("GraphService", P[0], eps[: len(eps) // 2 + 1]), service("OtherService", P[1], eps[len(eps) // 2 + 1:])]
     services = [s for s in services if s["endpoints"]]
     if shuffle_seed is not None:
